@@ -86,7 +86,8 @@ PROBE_STR = [u'', u'a', u'abc', u'abcdefghijkl', u'0', u'7', u'-5', u'1000',
 PROBE_NATIVE = [None, 0, 7, -5, 1000, u'', u'a', u'abcdefghijkl',
                 decimal.Decimal('1.5')]
 
-OPS = ['ordered_class', 'prim_customize', 'customize', 'child_attrs',
+OPS = ['ordered_class', 'prim_customize', 'recustomize', 'customize',
+       'child_attrs',
        'child_attrs_all',
        'child_attrs_noexc', 'array', 'iterable', 'mandatory', 'subclass',
        'append_field', 'insert_field', 'gc_collect', 'drop_reference',
@@ -318,7 +319,7 @@ def draw_ops(seed):
             ops.append([k, a, r.choice(('plain', 'unwrapped', 'member_name',
                                         'serializer_attrs', 'plain',
                                         'unwrapped_n'))])
-        elif k in ('iterable', 'mandatory', 'drop_reference'):
+        elif k in ('iterable', 'mandatory', 'drop_reference', 'recustomize'):
             ops.append([k, a])
         elif k == 'subclass':
             ops.append([k, a, [b % 7, (b >> 3) % 7][:r.randint(1, 2)]])
@@ -638,10 +639,74 @@ class Machine(object):
         dicts.append(('kwargs', attrs, saved))
         self._effect('prim_customize', i, new, attrs,
                      ignore=('unicode_pattern', 'max_str_len'))
+        self._twin_verdicts('prim_customize', i, new)
         if self._has_derivatives(i):
             self.nontrivial = True
         j = self._add(new, 'prim', i, 'customized', self.meta[i]['base'])
         return j, set()
+
+    def op_recustomize(self, op, dicts):
+        """Set a facet that an already customised primitive has been given
+        before to another value (the type has been looked at in between: every
+        step ends with a snapshot, verdicts included)."""
+        cands = [i for i in self._live(('prim',))
+                 if self.meta[i]['rel'] == 'customized']
+        if not cands:
+            raise _Skip()
+        i = cands[op[1] % len(cands)]
+        self._last_target = i
+        src = self.pool[i]
+        attrs = {}
+        for name, alts in UNI_ATTRS + INT_ATTRS:
+            if name in ('default', 'values'):
+                continue
+            cur = getattr(src.Attributes, name, None)
+            base = dict(PRIMS).get(self.meta[i]['base'])
+            if base is None or cur == getattr(base.Attributes, name, None):
+                continue        # never set on this one
+            other = [x for x in alts if x != cur]
+            if other:
+                attrs[name] = other[(op[1] >> 4) % len(other)]
+        attrs = self._fit_attrs(src, attrs)
+        if not attrs:
+            raise _Skip()
+        saved = copy.deepcopy(attrs)
+        new = src(**attrs)
+        dicts.append(('kwargs', attrs, saved))
+        self._effect('recustomize', i, new, attrs,
+                     ignore=('unicode_pattern', 'max_str_len'))
+        self._twin_verdicts('recustomize', i, new)
+        self.nontrivial = True
+        j = self._add(new, 'prim', i, 'customized', self.meta[i]['base'])
+        return j, set()
+
+    FACETS = ('min_len', 'max_len', 'pattern', 'values', 'ge', 'gt', 'le',
+              'lt', 'total_digits', 'fraction_digits', 'nillable',
+              'nullable', 'min_occurs')
+
+    def _twin_verdicts(self, k, i, new):
+        """What a type accepts depends on its constraints, not on how it got
+        them: a twin derived in ONE step from the builtin primitive, with the
+        effective facets of `new`, that nobody has looked at yet must give the
+        same verdicts on the probe values."""
+        base = dict(PRIMS).get(self.meta[i]['base'])
+        if base is None:
+            return
+        kw = {}
+        for f in self.FACETS:
+            v = getattr(new.Attributes, f, None)
+            if v != getattr(base.Attributes, f, None):
+                kw[f] = v
+        try:
+            twin = base(**kw) if kw else base
+        except Exception:
+            return
+        a, b = snapshot(new).get('verdicts'), snapshot(twin).get('verdicts')
+        if a != b:
+            self.viol('effect|%s|verdicts-depend-on-history' % k, 'member %d '
+                      'customised with the same facets %r as a fresh twin '
+                      'gives other verdicts on the probe values: %r vs %r' % (
+                          i, kw, a, b))
 
     def _fit_attrs(self, cls, attrs):
         out = {}
